@@ -88,13 +88,14 @@ extern "C" void harness_parentheses()  /* vf: bounds=5_models(accepted,rejected_
     vf_reach("end");
 }
 
-extern "C" void harness_whitespace()  /* vf: bounds=quick:2_models_x_3_fillers(newline,block_comment,line_comment);thorough:4_models_x_5_fillers(+spaces,tab);every_inter-token_space */
+extern "C" void harness_whitespace()  /* vf: bounds=quick:2_models_x_6_fillers(newline,block_comment,line_comment,doc_and_banner_comments_with_runs_of_stars,empty_comment);thorough:5_models_x_10_fillers;every_inter-token_space */
 {
-    static const char* FILL[] = {"\n", " /* c */ ", " // c\n", "   ", "\t"};
+    // comments in the spellings people write: plain, doc style, banners with runs of stars before the terminator, an empty one
+    static const char* FILL[] = {"\n", " /* c */ ", " // c\n", " /** title **/ ", " /***/ ", " /*** a * b\n *****/ ", "   ", "\t", " /* // */ ", " //* c\n"};
 #ifdef VF_TIER_THOROUGH
-    const int nm = NMODELS, nf = 5;
+    const int nm = NMODELS, nf = 10;
 #else
-    const int nm = 2, nf = 3;
+    const int nm = 2, nf = 6;
 #endif
     int mi = vf_pick("!model", nm);
 #ifndef VF_TIER_THOROUGH
@@ -157,7 +158,7 @@ extern "C" void harness_old_syntax()  /* vf: bounds=old-syntax_model_x_(keyword_
         "system P;\n";
     static const char* FROM[] = {" and ", " or ", "not ", " := ", " (j == 1)", " i > 0 or", " /sp/"};
     static const char* TO[] = {" && ", " || ", "!", " = ", " ((j == 1))", " (i > 0) or", ""};
-    int rw = vf_pick("!rewrite", 7), occ = vf_pick("!occurrence", 3), fill = vf_pick("!filler", 3);
+    int rw = vf_pick("!rewrite", 7), occ = vf_pick("!occurrence", 3), fill = vf_pick("!filler", 5);
     std::string m = OLD;
     Obs base = observe(m, false);
     std::string r;
@@ -167,7 +168,7 @@ extern "C" void harness_old_syntax()  /* vf: bounds=old-syntax_model_x_(keyword_
         vf_assume(pos != std::string::npos);
         r = m.substr(0, pos) + TO[rw] + m.substr(pos + strlen(FROM[rw]));
     } else {
-        static const char* FILL[] = {"\n", " /* c */ ", " // c\n"};
+        static const char* FILL[] = {"\n", " /* c */ ", " // c\n", " /** t **/ ", " /***/ "};
         std::vector<size_t> gaps; for (size_t i = 0; i < m.size(); i++) if (m[i] == ' ') gaps.push_back(i);
         size_t g = (size_t)(occ * 17 + fill * 5) % gaps.size();
         r = m.substr(0, gaps[g]) + FILL[fill] + m.substr(gaps[g] + 1);
@@ -218,12 +219,12 @@ extern "C" void harness_renaming_xml()  /* vf: bounds=2-template_XML_model_x_12_
 }
 
 // queries: blanks and comments (also comments that span lines) between the tokens of one query; a line break outside a comment ends a query and is no such rewrite
-extern "C" void harness_query_whitespace()  /* vf: bounds=10_queries_x_every_inter-token_space_x_5_fillers(spaces,tab,block_comment,block_comment_spanning_2_and_3_lines) reach=end */
+extern "C" void harness_query_whitespace()  /* vf: bounds=10_queries_x_every_inter-token_space_x_7_fillers(spaces,tab,block_comment,block_comment_spanning_2_and_3_lines,star-run_comments) reach=end */
 {
     static const char* QUERIES[] = {"A[] not deadlock", "E<> P1.Busy and cnt > 1", "A<> cnt == 3 imply flag", "P1.Idle --> P2.Busy", "E[] cnt < 3 or not flag", "sup: cnt , x", "Pr[<=10] (<> P1.Busy)",
                                     "simulate [<=10] { cnt , x }", "E<> forall (i : int[0,2]) buf[i] >= 0", "inf { P1.Busy } : x"};
-    static const char* FILL[] = {"   ", "\t", " /* c */ ", " /* eventually\n twice */ ", " /* a\n b\n c */ "};
-    int qi = vf_pick("!query", 10), f = vf_pick("!filler", 5), g = vf_pick("!gap", 12);
+    static const char* FILL[] = {"   ", "\t", " /* c */ ", " /* eventually\n twice */ ", " /* a\n b\n c */ ", " /** t **/ ", " /***/ "};
+    int qi = vf_pick("!query", 10), f = vf_pick("!filler", 7), g = vf_pick("!gap", 12);
     std::string q = QUERIES[qi];
     std::vector<size_t> gaps;
     for (size_t i = 0; i < q.size(); i++) if (q[i] == ' ') gaps.push_back(i);
